@@ -82,7 +82,9 @@ def make_plan(rng):
                     del pools[g]
             ro.append(seq)
         orders.append(ro)
-    return dict(W=W, groups=groups, cycles=cycles, cap=cap, orders=orders, real=real_valued, mixed_dtype=mixed_dtype)
+    # results are either awaited after every cycle or only after the last one (buckets of cycle i may then still be in
+    # flight, their completion callbacks pending, while cycle i+1 fills new buckets)
+    return dict(W=W, groups=groups, cycles=cycles, cap=cap, orders=orders, real=real_valued, mixed_dtype=mixed_dtype, defer=rng.random() < 0.5)
 
 
 def packed_numel(it):
@@ -139,9 +141,15 @@ def rank_fn(plan):
             for ti, it in enumerate(items):
                 if rank in members(plan, it['g']):
                     dfuts[ti] = direct.allreduce(data(rank, ci, ti, it, plan['real']), average=it['avg'], symmetric=it['sym'], group=handles[it['g']])
-            got = {ti: (f.wait() if not isinstance(f, torch.Tensor) else f) for ti, f in futs.items()}
-            dgot = {ti: (f.wait() if not isinstance(f, torch.Tensor) else f) for ti, f in dfuts.items()}
-            out.append((got, dgot))
+            if plan.get('defer'):
+                out.append((futs, dfuts))
+            else:
+                out.append(({ti: (f.wait() if not isinstance(f, torch.Tensor) else f) for ti, f in futs.items()},
+                            {ti: (f.wait() if not isinstance(f, torch.Tensor) else f) for ti, f in dfuts.items()}))
+        if plan.get('defer'):
+            simdist.phase(('final_wait',))
+            out = [({ti: (f.wait() if not isinstance(f, torch.Tensor) else f) for ti, f in futs.items()},
+                    {ti: (f.wait() if not isinstance(f, torch.Tensor) else f) for ti, f in dfuts.items()}) for futs, dfuts in out]
         return dict(cycles=out, names=['world' if h is None else getattr(h, 'group_name', None) for h in handles])
     return fn
 
@@ -153,7 +161,7 @@ def run_case(rng, res, idx, stress=False):
     plan = make_plan(rng)
     policy = simdist.POLICIES[idx % len(simdist.POLICIES)]
     case = dict(idx=idx, W=plan['W'], groups=plan['groups'], cap=plan['cap'], cycles=[[(it['g'], it['shape'], it['dtype'], it['sym'], it['avg']) for it in c] for c in plan['cycles']],
-                policy=policy, mixed_dtype=plan['mixed_dtype'])
+                policy=policy, mixed_dtype=plan['mixed_dtype'], defer=plan['defer'])
     run = simdist.run_world(plan['W'], rank_fn(plan), seed=rng.randrange(10 ** 6), policy=policy, stress=stress, deliver_prob=rng.choice([0.0, 0.5, 1.0]))
     if run.inconclusive:
         res.inconclusive.append('simulator watchdog fired')
